@@ -75,6 +75,11 @@ CHECKS.update({
    technique="explicit-state BFS over identity-aware call histories on the real CircuitBreaker and over interleavings of hand-driven AsyncPolicy coroutines sharing one breaker; identity-aware reference automaton with look-ahead comparison; first-divergence pruning",
    text="(a) histories start/settle(i, success|failure|cancel)/tick with 2-3 outstanding calls on the real breaker, (b) all interleavings to depth 7 (9) of 2-3 concurrent AsyncPolicy.call/execute coroutines (with/without retry, pre-flight abort) with resume-ok, resume-failure, cancel and tick events, (c) sequential Policy/AsyncPolicy histories: from opening until the timeout every start is rejected without invoking the operation and without being counted, afterwards exactly one probe is admitted until it settles, success closes with empty history, failure re-opens with a fresh timeout, cancel frees the slot.",
    note="two known findings (c07.stale-settle, c07.unadmitted-cancel) are listed in known_findings.json and pruned at their first divergent step; every other divergence is a violation"),
+
+ "C17": dict(engine="E4 thread", cat="model_checking", ref="6 C17",
+   technique="stateless exploration of real thread interleavings under a controlled scheduler (sys.monitoring line/bytecode scheduling points, baton hand-off, cooperative model lock), iterative pre-emption bounding; brute-force linearizability against sequential runs of the real component",
+   text="22 small concurrent programs over one shared CircuitBreaker or Budget (racing probes, racing failures at the threshold, settle-vs-allow, racing consume at one token left, all-or-nothing consume(2), state/remaining reads, 3-thread variants, window-boundary variants): every interleaving with pre-emption before every source line up to the bound (complete for 2 threads x 1 op in thorough, plus bytecode granularity) must give per-thread results, final state and follow-up answers equal to some sequential order; deadlocks and exceptions under an interleaving are violations.",
+   note="clock constant during the concurrent phase; sequential consistency (GIL); pre-emption bound 2-3 quick; any threading.Lock/RLock attribute of the instance is replaced by a model lock"),
 })
 PENDING = {
 }
